@@ -251,6 +251,7 @@ package desync
 //@ ghost var $attempts int
 //@ ghost var $last error
 //@ ghost var $snap int
+//@ ghost var $cur int
 
 //@ func (r StoreRouter) GetChunk
 //@   prop C11 C03
@@ -314,6 +315,10 @@ package desync
 //@   ensures @C11 len(g.stores) > 0 ==> $attempts >= 1 && err == $last
 //@   ensures @C11 err != nil && !is(err, ChunkMissing) ==> $attempts == len(g.stores)
 //@   ensures @C03 err == nil ==> r0 != nil && r0.idCalculated && r0.id == id
+//# the failure is reported for the member that was actually asked (errorFrom ignores any other index, so
+//# naming a different one leaves the failed member active)
+//@   ghost@after:current $cur = $r1
+//@   oncall errorFrom: requires $arg0 == $cur
 
 //@ func (g *FailoverGroup) HasChunk
 //@   prop C11
@@ -326,6 +331,8 @@ package desync
 //@   ensures $attempts <= len(g.stores)
 //@   ensures len(g.stores) > 0 ==> $attempts >= 1 && err == $last
 //@   ensures err != nil ==> $attempts == len(g.stores)
+//@   ghost@after:current $cur = $r1
+//@   oncall errorFrom: requires $arg0 == $cur
 
 //@ guard SwapStore: s by mu
 //@ guard SwapWriteStore: SwapStore.s by SwapStore.mu
@@ -503,18 +510,30 @@ package desync
 //@ ghost var $marked int
 //@ ghost var $deleted int
 //@ ghost var $upstream int
+//@ ghost var $had bool
+//@ ghost var $prev *request
 
 //@ guard queue: requests by mu inv forall k ChunkID :: has(self.requests, k) ==> self.requests[k] != nil
 
 //@ func (q *queue) loadOrStore
 //@   prop C12
-//@   modifies q.mu, q.requests, maps(map[ChunkID]*request)
+//@   modifies q.mu, q.requests, maps(map[ChunkID]*request), $had, $prev
 //@   ensures r0 != nil && held(q.mu) == old(held(q.mu))
+//# a record that is in the queue is the one every caller gets, whatever state it is in: it leaves the queue only
+//# through its owner's delete, never by being replaced (a replaced record would be deleted by the earlier owner
+//# and let a third caller start a second upstream request while one is running)
+//# (stated over the queue as it is while the lock is held: $had/$prev are taken right after Lock)
+//@   ghost@after:Lock $had = has(q.requests, id)
+//@   ghost@after:Lock $prev = q.requests[id]
+//@   ensures $had ==> r1 && r0 == $prev
+//@   ensures !$had ==> !r1
+//@   assert@before:Unlock has(q.requests, id) && q.requests[id] == req && ($had ==> req == $prev)
 
 //@ func (q *queue) delete
 //@   prop C12
 //@   modifies q.mu, q.requests, maps(map[ChunkID]*request)
 //@   ensures held(q.mu) == old(held(q.mu))
+//@   assert@before:Unlock !has(q.requests, id)
 
 //@ func (r *request) markDone
 //@   prop C12
@@ -531,7 +550,7 @@ package desync
 //@ func (q *DedupQueue) GetChunk
 //@   prop C12 C03
 //@   requires held(q.getChunkQueue.mu) == 0
-//@   modifies q.getChunkQueue.mu, q.getChunkQueue.requests, maps(map[ChunkID]*request), heap(request.data), heap(request.err), q.store.$gets, q.store.$lastErr, $owner, $marked, $deleted, $upstream
+//@   modifies q.getChunkQueue.mu, q.getChunkQueue.requests, maps(map[ChunkID]*request), heap(request.data), heap(request.err), q.store.$gets, q.store.$lastErr, $owner, $marked, $deleted, $upstream, $had, $prev
 //@   ghost@entry $marked = 0
 //@   ghost@entry $deleted = 0
 //@   ghost@entry $upstream = 0
@@ -892,6 +911,12 @@ package desync
 //@   ghost@after:SendMissing $done = ($r0 == nil)
 //@   ghost@loop1.head $done = false
 //@   ensures @C14 r0 == nil ==> !$done
+//# C14: MISSING is the answer only to a store reporting ChunkMissing; any other store failure is never
+//# reported to the client as a missing chunk
+//@   ghost@entry $last = nil
+//@   ghost@after:GetChunk $last = $r1
+//@   oncall SendMissing: requires @C14 is($last, ChunkMissing)
+//@   oncall SendProtocolChunk: requires @C14 $last == nil && $arg1 == CaProtocolChunkCompressed
 
 // ---------------------------------------------------------------------------- C04: index files
 
@@ -1103,6 +1128,7 @@ package desync
 //@ ghost var $wrote bool
 //@ ghost var $removed bool
 //@ ghost var $rmTmp bool
+//@ ghost var $queued bool
 
 //@ func (s LocalStore) GetChunk
 //@   prop C20 C03
@@ -1168,6 +1194,7 @@ package desync
 //@   lit 1: ensures r0 == nil && !isDirOf(info) && !hasPrefix(pbase(path), ".tmp-cacnk") && ownFile(path, s.Opt.Uncompressed) && !has(ids, idOfFile(path, s.Opt.Uncompressed)) ==> $removed
 //@   lit 1: ensures r0 == nil && !isDirOf(info) && hasPrefix(pbase(path), ".tmp-cacnk") ==> $rmTmp && !$removed
 //@   lit 1: ensures $sawDone ==> is(r0, Interrupted) && !$removed && !$rmTmp
+//@   lit 1: ensures !$sawDone && old(err) == nil && isDirOf(info) ==> r0 == nil
 
 //@ func (s LocalStore) Verify
 //@   prop C16 C20
@@ -1186,6 +1213,12 @@ package desync
 //@   lit 2: ghost@recv:ctx.Done() $sawDone = true
 //@   lit 2: assert@send:ids !$sawDone && !isDirOf(info) && ownFile(path, s.Opt.Uncompressed) && v == idOfFile(path, s.Opt.Uncompressed)
 //@   lit 2: ensures $sawDone ==> is(r0, Interrupted)
+//# completeness: every file of this store's own format that the walk reaches is handed to a worker, whatever
+//# its name or the name of the directory it is in; no directory is pruned from the walk
+//@   lit 2: ghost@entry $queued = false
+//@   lit 2: ghost@send:ids $queued = true
+//@   lit 2: ensures r0 == nil && !isDirOf(info) && ownFile(path, s.Opt.Uncompressed) ==> $queued
+//@   lit 2: ensures !$sawDone && old(err) == nil && isDirOf(info) ==> r0 == nil
 
 //# the two formats never share a file name (C20, C16): 64 hex digits versus 64 hex digits plus ".cacnk"
 //@ lemma @C20,C16 formatIsolation: forall b string, i ChunkID, j ChunkID :: chunkPath(b, i, true) != chunkPath(b, j, false)
@@ -1529,6 +1562,11 @@ package desync
 //@   oncall OpenFile: requires $arg0 == pjoin(fs.Root, n.Name)
 //@   oncall SetFilePermissions: requires $arg0 == n
 //@   oncall Chtimes: requires $done && $arg0 == pjoin(fs.Root, n.Name) && $arg2 == n.MTime
+//# C18: the file is created fresh: whatever was at the path (in particular a symlink an earlier entry put there,
+//# which opening with O_CREATE|O_TRUNC would follow) has been removed before the open
+//@   ghost@entry $removed = false
+//@   ghost@after:RemoveAll $removed = ($r0 == nil || notExist($r0))
+//@   oncall OpenFile: requires @C18 $removed
 
 //@ ghost var $timed bool
 //@ func (fs *LocalFS) CreateSymlink
@@ -1598,7 +1636,7 @@ package desync
 //@   requires $wn >= 0
 //# C05: an entry is packed inside a directory's element exactly when the directory is its parent, under the
 //# last component of its name
-//@   oncall tar#2: requires @C05 pdir($arg3.Path) == dir
+//@   oncall tar#2: requires @C05,C13 pdir($arg3.Path) == dir
 //@   modifies all, $wn, $w, $wid, $sawDone
 //@   ghost@recv:ctx.Done() $sawDone = true
 //# every element handed to the encoder carries its own type and a size field equal to the bytes its encoding takes
@@ -2013,3 +2051,31 @@ package desync
 //@   ensures r1 > 0 ==> $syncNull && $prevNull
 //@   loop 1: invariant true
 //@   loop 2: invariant $syncNull && $prevNull
+
+// ---------------------------------------------------------------------------- C20: the zstd codec
+
+//# The shared encoder and decoder are built once, by their package-level initializers, with options
+//# under which (library contract, stubs/zstd.spec) the encoder writes one standard dictionary-less frame
+//# and the decoder accepts every standard frame of any decoded size; nothing else ever assigns them, and
+//# Compress/Decompress hand their arguments to exactly these two objects.
+//@ func init:encoder
+//@   prop C20
+//@   safety none
+//@   ensures stdEncoder(encoder)
+
+//@ func init:decoder
+//@   prop C20
+//@   safety none
+//@   ensures stdDecoder(decoder)
+
+//@ owner @C20 var: encoder, decoder by init:encoder, init:decoder
+
+//@ func Compress
+//@   prop C20
+//@   safety none
+//@   oncall EncodeAll: requires $recv == encoder && $arg0 == src && len($arg1) == 0
+
+//@ func Decompress
+//@   prop C20
+//@   safety none
+//@   oncall DecodeAll: requires $recv == decoder && $arg0 == src && $arg1 == dst
